@@ -112,10 +112,8 @@ def decodeMacro (attrs : List Attrs) : Nat → Json → Except String Model.Auth
     | "tok" => pure (.tok (← J.getHex j "host") (← J.getHex j "tok") 0 0 (bound j) (← sub "mid0") (← sub "mid1") (← sub "mid2"))
     | "sar" => pure (.sar (← J.getHex j "host") (← nth attrs (← J.getNat j "attrs") "attrs") 0 (bound j) (← sub "mid0") (← sub "mid"))
     | "pipe" => do
-      let atr ← match j.getObjVal? "attrs" >>= (·.getInt?) with
-        | .ok i => if i < 0 then pure none else do pure (some (← nth attrs i.toNat "attrs"))
-        | .error _ => pure none
-      pure (.pipe (← J.getHex j "host") (← J.getHex j "tok") atr (← sub "mid0") (← sub "mid1") (← sub "mid2")
+      let tg ← getHexOpt j "target"
+      pure (.pipe (← J.getHex j "host") (← J.getHex j "tok") tg (← sub "mid0") (← sub "mid1") (← sub "mid2")
         (← sub "midA") (← sub "mid") (← sub "midD"))
     | o => throw s!"unknown op {o}"
 
